@@ -27,6 +27,7 @@ from sa.pyfront import Program
 from sa.symex import Interp
 
 RULES = {
+    "R-C02-g": "every sub-cube task walks its dimensions: the task function has no early return (one taken only when NO dimension has an entry is harmless; one taken when SOME dimension has none skips the margins of the others)",
     "R-C02-f": "walk schema (imported from the C14 analysis): every non-empty uncommon and marginal intersection is presented exactly once, with no early exit from the entry loops",
     "R-C02-a": "every region of every index-cube aggregate is differenced exactly once, before it is trimmed, tested or returned",
     "R-C02-b": "ffunc_count corner values are the all-rows instances of the per-cell values",
@@ -137,6 +138,44 @@ def rule_e(prog, rep):
     rep.check(all_axes, "R-C02-e", where, "one differencing pass per dimension", "for axis in range(len(self.dims))", "loop runs over %s" % (it and tm.show(it)[:60]))
 
 
+def rule_g(prog, rep):
+    from sa import tasks
+    from sa.symex import flat_guards
+    info = tasks.analyse_cube(prog, "ccubes", "ccube")
+    where = info.fi.fq
+    entries = list(info.callbacks) + list(info.serial_calls)
+    if not entries:
+        rep.undecided("R-C02-g", where, "task activations", "no task function dispatched from calculate (anchor vanished)")
+        return
+    n = 0
+    for entry in entries:
+        kind = "pooled" if entry in info.callbacks else "serial"
+        walks = [e for e in tasks.task_events(info, entry) if e.kind == "call" and e["method"] == "walk"]
+        rep.check(len(walks) == 1 and not [g for g in walks[0].guards if g not in entry.guards and not _interrupt_guard(g)], "R-C02-g", "%s@%d" % (where, entry.line),
+                  "%s task: the sub-cube is walked exactly once, unconditionally" % kind, "", "walk is called %d time(s) or under a condition" % len(walks))
+        n += 1
+        for ev, extra in tasks.early_returns(info, entry):
+            g = flat_guards(extra)
+            w = "%s@%d" % (where, ev.line)
+            cons = "%s task: early return" % kind
+            anys = [(c, pol) for c, pol in g if c.op == "call" and tm.callee_name(c) == "builtins.any"]
+            alls = [(c, pol) for c, pol in g if c.op == "call" and tm.callee_name(c) == "builtins.all"]
+            others = [x for x in g if x not in anys and x not in alls and not _interrupt_guard(x)]
+            if alls and not others and all(not pol for c, pol in alls):
+                rep.violated("R-C02-g", w, cons, "the task returns as soon as SOME dimension of the sub-cube has no entry: the margins of the other dimensions are never filled, so differencing leaves the whole total in the all-common cell",
+                             witness={"inputs": "ccube([A, K]).count() where every row of K holds K's common value: (a, common) comes out 0 and missing, (common, common) holds N"})
+            elif anys and not others and not alls and all(not pol for c, pol in anys):
+                rep.proved("R-C02-g", w, cons, "taken only when NO dimension has an entry: the walk would present nothing")
+            else:
+                rep.undecided("R-C02-g", w, cons, "cannot decide whether the skipped sub-cube had anything to present (guards: %s)" % [tm.show(c)[:40] for c, p in g])
+    rep.floor("R-C02-g", 2, n)
+
+
+def _interrupt_guard(g):
+    c, pol = g
+    return tm.contains(c, lambda x: x.op == "attr" and x.args[1] == "check_interrupt")
+
+
 def main(tier):
     rep = core.Report("C02", level="other", rules=RULES, tier=tier,
                       declined="every cell equals the brute-force contingency count for all data (values); decided are the structural conditions that make the reconstructed common cells right")
@@ -153,6 +192,7 @@ def main(tier):
     rule_c(prog, rep)
     rule_d(prog, rep)
     rule_e(prog, rep)
+    rule_g(prog, rep)
     # R-C02-f: the counts are laid down by the walk: its schema (every non-empty uncommon / marginal
     # intersection presented exactly once, no early exit) is decided by the C14 analysis and imported here
     import c14
